@@ -509,10 +509,10 @@ def sync_gaps_real(i1: int, i2: int, i3: int, i4: int, i5: int) -> bool:
         res = select(r, w_, x, t)
         check()
         return res
-    saved = S.select, S.os, WT.os, WT.time, WT.tempfile, WT.util
+    saved = S.select, S.os, WT.os, getattr(WT, "time", None), WT.tempfile, WT.util
     S.select = ns("S.select", select=select2)
     S.os = ns("S.os", getppid=lambda: 1, read=lambda fd, n: b"")
-    WT.os = ns("WT.os", utime=lambda fd, times: mtime.__setitem__(fd, times[1]),
+    WT.os = ns("WT.os", utime=lambda fd, times=None: mtime.__setitem__(fd, times[1] if times else 1.7e9 + clock[0] / 1000.0),
                fstat=lambda fd: SimpleNamespace(st_mtime=mtime[fd]), umask=lambda m: 0o22, geteuid=lambda: 0,
                getegid=lambda: 0, close=lambda fd: None, path=SimpleNamespace(isdir=lambda p: True),
                fdopen=lambda fd, m, b: SimpleNamespace(fileno=lambda: fd, close=lambda: None))
@@ -529,6 +529,72 @@ def sync_gaps_real(i1: int, i2: int, i3: int, i4: int, i5: int) -> bool:
     finally:
         S.select, S.os, WT.os, WT.time, WT.tempfile, WT.util = saved
     return not killed
+
+
+# ---- 3b. heartbeat writer and heartbeat reader against two clocks ----------------------------------------------------------------
+def heartbeat_clock(step_at: int, step: int, hang_at: int, T: int) -> bool:
+    """
+    pre: 0 <= step_at <= 12 and 0 <= step <= 2 and 0 <= hang_at <= 12 and 2 <= T <= 4
+    post: __return__
+    """
+    # the real WorkerTmp.__init__/notify()/last_update() (worker side) and the real Arbiter.murder_workers() (master side)
+    # over one simulated file, with a MONOTONIC clock that advances 1 s per tick and a WALL clock = monotonic + offset whose
+    # offset jumps by +1 h / -1 h at tick `step_at` (NTP step, VM resume, `date -s`).  The worker heartbeats once per tick
+    # until tick `hang_at` (13 = never hangs).  A healthy worker is never signalled; a hung one gets SIGABRT no later than
+    # timeout + 1 tick after its last heartbeat, and never earlier than timeout.
+    step_at, step, hang_at, T = pick(step_at, 0, 12), pick(step, 0, 2), pick(hang_at, 0, 12), pick(T, 2, 4)
+    jump = [0, 3600, -3600][step]
+    never = hang_at >= 12
+    mono = [100]
+    offset = [1_700_000_000]
+    mtime = {7: None}
+
+    def wall():
+        return mono[0] + offset[0]
+
+    def utime(fd, times=None, **kw):
+        if times is None:
+            times = kw.get("ns") or (wall(), wall())     # the kernel stamps wall-clock "now"
+        mtime[fd] = times[1]
+    saved_wt = {k: getattr(WT, k, None) for k in ("os", "time", "tempfile", "util")}
+    WT.os = ns("WT.os", utime=utime, fstat=lambda fd: SimpleNamespace(st_mtime=mtime[fd]), umask=lambda m: 0o22,
+               geteuid=lambda: 0, getegid=lambda: 0, close=lambda fd: None, path=SimpleNamespace(isdir=lambda p: True),
+               fdopen=lambda fd, m, b: SimpleNamespace(fileno=lambda: fd, close=lambda: None))
+    WT.time = ns("WT.time", monotonic=lambda: mono[0], time=wall)
+    WT.tempfile = ns("WT.tempfile", mkstemp=lambda prefix=None, dir=None: (mtime.__setitem__(7, wall()) or 7, "/tmp/wg"))
+    WT.util = ns("WT.util", chown=lambda *a: None, unlink=lambda n: None)
+    K = KS.Kernel()
+    arb = mk_arbiter(K, 0, timeout=T)
+    sent = []
+    arb.kill_worker = lambda pid, sig: sent.append((int(sig), mono[0]))
+    saved_time = A.time
+    A.time = ns("A.time", monotonic=lambda: mono[0], time=wall, sleep=lambda s_: None)
+    try:
+        tmp = WT.WorkerTmp(SimpleNamespace(umask=0, worker_tmp_dir=None, uid=0, gid=0))
+        arb.WORKERS = {55: SimpleNamespace(tmp=tmp, aborted=False, age=1, pid=55)}
+        last_beat = mono[0]
+        for tick in range(13 + T + 2):
+            if tick == step_at:
+                offset[0] += jump
+            if never or tick < hang_at:
+                tmp.notify()
+                last_beat = mono[0]
+            arb.murder_workers()
+            mono[0] += 1
+    finally:
+        A.time = saved_time
+        for k, v in saved_wt.items():
+            if v is None:
+                if hasattr(WT, k):
+                    delattr(WT, k)
+            else:
+                setattr(WT, k, v)
+    if never:
+        return not sent
+    if not sent or sent[0][0] != int(signal.SIGABRT):
+        return False
+    t_abrt = sent[0][1]
+    return last_beat + T < t_abrt <= last_beat + T + 1
 
 
 def sync_gaps_twin(tape: List[int]) -> bool:
@@ -643,6 +709,9 @@ OBLIGATIONS = [
               "thorough": [{"listeners": l, "tape": 5, "i1": i} for l in (1, 2) for i in range(6)]},
        timeout=1200, bound="as sync_gaps with the real WorkerTmp.notify/last_update and the arbiter's own test; waits / request "
                            "durations from {0,999,1000,2000,3000,3999} ms, timeout 4 s, tape 4-5"),
+    Ob("C11.heartbeat_clock", "heartbeat_clock", timeout=600,
+       bound="real WorkerTmp + real murder_workers over one simulated file, monotonic clock in 1 s ticks, wall clock stepping by 0 / +1 h / "
+             "-1 h at one of 13 ticks, worker hanging at one of 12 ticks or never, timeout 2..4 s"),
     Ob("C11.sync_gaps.twin", "sync_gaps_twin", cases=[{"timeout": 4, "listeners": 1, "tape": 4}], expect="refute", timeout=120),
     Ob("C11.gthread_gaps", "gthread_gaps",
        cases=[{"timeout": t, "tape": 4, "wc": 2, "nr_conns": nc} for t in (1, 2) for nc in (0, 2)],
